@@ -123,8 +123,12 @@ func collect(stmts []ast.Stmt, recv string, s *sets, conditional bool) {
 func perType(file *ast.File, fn, recv string) map[string]*sets {
 	var fd *ast.FuncDecl
 	for _, d := range file.Decls {
-		if f, ok := d.(*ast.FuncDecl); ok && f.Name.Name == fn && f.Recv != nil {
-			fd = f
+		if f, ok := d.(*ast.FuncDecl); ok && f.Name.Name == fn && f.Recv != nil && len(f.Recv.List) == 1 {
+			if st, ok := f.Recv.List[0].Type.(*ast.StarExpr); ok {
+				if id, ok := st.X.(*ast.Ident); ok && id.Name == "Transaction" {
+					fd = f
+				}
+			}
 		}
 	}
 	if fd == nil {
